@@ -118,6 +118,8 @@ struct Pol
 	using Threading = eventpp::SingleThreading;
 #elif W_THREADING == 1
 	using Threading = eventpp::MultipleThreading;
+#elif W_THREADING == 3
+	using Threading = eventpp::GeneralThreading<vf::TrackedMutex, vf::TrackedAtomic, vf::TrackedCondVar>;
 #else
 	using Threading = eventpp::GeneralThreading<eventpp::SpinLock>;
 #endif
